@@ -6,7 +6,7 @@
    constant cache, bytes of every live slot, and the full value skeleton of every process).
    The model is run as the code is committed (fix_F9 and fix_F46 applied); if that disagrees, the
    pre-repair variants are tried so that a regression is named rather than just reported.
-   stdout: (agree <ops> current|f9-regressed|f46-regressed|f9-f46-regressed) | (disagree (op k) <op> (model ..) (real ..)) | (empty) *)
+   stdout: (agree <ops> current|f9-f45-regressed|f46-regressed|f9-f45-f46-regressed) | (disagree (op k) <op> (model ..) (real ..)) | (empty) *)
 open Heap_model
 
 let rec nat_of_int n = if n <= 0 then O else S (nat_of_int (n - 1))
@@ -199,9 +199,9 @@ let run_op (fx : bool) (f46 : bool) (prog : hprogram) (xs : exec array) (op : Se
   | Sexp.List [Sexp.Atom "result"; e; awaiter; awaited; v; Sexp.List (Sexp.Atom "heap" :: data)] ->
     let e = ios e in
     xs.(e) <- get (notify_result fx xs.(e) (nos awaiter) (nos awaited) (value_of v) (heap_of data)); e
-  | Sexp.List [Sexp.Atom "fail"; e; awaiter] ->
+  | Sexp.List [Sexp.Atom "fail"; e; awaiter; awaited] ->
     let e = ios e in
-    xs.(e) <- fail_result xs.(e) (nos awaiter); e
+    xs.(e) <- fail_result fx xs.(e) (nos awaiter) (nos awaited); e
   | Sexp.List [Sexp.Atom "orphans"; e; pid; Sexp.List (Sexp.Atom "keep" :: ks)] ->
     let e = ios e in
     xs.(e) <- get (release_orphan_locals xs.(e) (nos pid) (List.map nos ks)); e
@@ -260,7 +260,7 @@ let () =
             match Sexp.parse line with
             | Sexp.List (Sexp.Atom "trace" :: []) -> "(empty)"
             | Sexp.List (Sexp.Atom "trace" :: items) ->
-              (* the code as committed: fix_F9 and fix_F46 applied *)
+              (* the code as committed: fix_F9, fix_F45 (both under `fx`) and fix_F46 applied *)
               (match replay true true items with
                | Ok n -> Printf.sprintf "(agree %d current)" n
                | Error m1 ->
@@ -270,7 +270,7 @@ let () =
                      (match replay fx f46 items with
                       | Ok n -> Printf.sprintf "(agree %d %s)" n name
                       | Error _ -> try_modes rest) in
-                 try_modes [(false, true, "f9-regressed"); (true, false, "f46-regressed"); (false, false, "f9-f46-regressed")])
+                 try_modes [(false, true, "f9-f45-regressed"); (true, false, "f46-regressed"); (false, false, "f9-f45-f46-regressed")])
             | _ -> "(bad-trace)"
           with Failure m -> "(driver-failure \"" ^ String.escaped m ^ "\")"
              | Not_found -> "(driver-failure not-found)" in
